@@ -76,7 +76,7 @@ package coroutines
 //@ use-contracts createPromiseAndTask
 //@ overflow C07
 // the task is born claimed by the requesting process with the lease the request asks for (C07): ttl, expiry, timeout
-//@ site call createPromiseAndTask assert taskCmd != nil && taskCmd.State == task.Claimed && taskCmd.Ttl == r.CreatePromiseAndTask.Task.Ttl && taskCmd.ProcessId != nil && *taskCmd.ProcessId == r.CreatePromiseAndTask.Task.ProcessId && taskCmd.Timeout == r.CreatePromiseAndTask.Task.Timeout && taskCmd.Id == sprintf("__invoke:%s", r.CreatePromiseAndTask.Task.PromiseId)
+//@ site call createPromiseAndTask assert [C07 C08 C06 C20] taskCmd != nil && taskCmd.State == task.Claimed && taskCmd.Ttl == r.CreatePromiseAndTask.Task.Ttl && taskCmd.ProcessId != nil && *taskCmd.ProcessId == r.CreatePromiseAndTask.Task.ProcessId && taskCmd.Timeout == r.CreatePromiseAndTask.Task.Timeout && taskCmd.Id == sprintf("__invoke:%s", r.CreatePromiseAndTask.Task.PromiseId)
 // the lease of the task that is born claimed ends ttl after now, like any claim (C07, C06: a creator that never
 // learns it holds the task loses it after ttl, and the invocation is dispatched again)
 //@ site call createPromiseAndTask assert [C07 C06 C08] taskCmd.ExpiresAt == wrap64(now() + r.CreatePromiseAndTask.Task.Ttl)
@@ -311,13 +311,16 @@ package coroutines
 //@ ghostdb coroutine
 //@ nopanic C13
 //@ requires c != nil && promiseCmd != nil && promiseCmd.Param.Headers != nil && promiseCmd.Param.Data != nil && promiseCmd.Tags != nil
-//@ requires taskCmd != nil ==> taskCmd.Mesg != nil && (taskCmd.State == task.Init || taskCmd.State == task.Claimed) && (taskCmd.State != task.Claimed || taskCmd.ProcessId != nil)
+//@ requires taskCmd != nil ==> taskCmd.Mesg != nil && taskCmd.State == task.Claimed && taskCmd.ProcessId != nil
 //@ requires taskCmd != nil ==> taskCmd.Mesg.Root == promiseCmd.Id
 // one transaction: the create command followed by every command the caller passed (the schedule advance of SchedulePromises, C10)
 //@ site yield store assert len(cmds) == len(additionalCmds) + 1
 // a promise for which a task was asked (create-with-task) or whose routing matched is only ever created together with that task: never half-done (C08)
 //@ site yield store assert taskCmd != nil ==> cmds[0] != nil && cmds[0].Kind == t_aio.CreatePromiseAndTask && cmds[0].CreatePromiseAndTask != nil && cmds[0].CreatePromiseAndTask.TaskCommand == taskCmd
 //@ site yield store assert taskCmd == nil ==> cmds[0] != nil && cmds[0].Kind == t_aio.CreatePromise
+// the task created with a promise is its invocation task: id "__invoke:" followed by the promise id as it is (C20:
+// ids the server derives embed the client id unaltered), for the promise of this command, with the matched receiver
+//@ site yield store assert [C20 C08 C19] cmds[0].Kind == t_aio.CreatePromiseAndTask && cmds[0].CreatePromiseAndTask.TaskCommand.State == task.Init ==> cmds[0].CreatePromiseAndTask.PromiseCommand == promiseCmd && cmds[0].CreatePromiseAndTask.TaskCommand.Id == sprintf("__invoke:%s", promiseCmd.Id) && cmds[0].CreatePromiseAndTask.TaskCommand.Recv == completion.Router.Recv
 //@ ensures [await C08 C10] err == nil ==> result0 != nil && result0.Store != nil && len(result0.Store.Results) >= 1 && result0.Store.Results[0] != nil
 //@ ensures [await C08 C10] err == nil ==> (result0.Store.Results[0].Kind == t_aio.CreatePromise && result0.Store.Results[0].CreatePromise != nil) || (result0.Store.Results[0].Kind == t_aio.CreatePromiseAndTask && result0.Store.Results[0].CreatePromiseAndTask != nil)
 //@ ensures [await C08 C10] err != nil ==> result0 == nil
